@@ -70,6 +70,7 @@ def screen_init(eng, st, margins='either'):
         st.vn[('entry', 'top')] = mm.fields['top']
         st.vn[('entry', 'bottom')] = mm.fields['bottom']
     st.vn[('entry', 'margins')] = margins
+    st.vn[('entry', 'saved_columns')] = scr.fields['saved_columns']
     return scr
 
 
